@@ -1,4 +1,5 @@
 import Wl2kVerif.Proofs.Ardop
+import Wl2kVerif.Gen.Facts
 /-
 C14 — ARDOP connection: reliable ordered byte stream with correct host framing.
 
@@ -237,5 +238,19 @@ theorem close_disconnects (msgs : List (Option CtrlMsg)) :
     (close msgs).1 = [Gen.ardop_cmdDisconnect] ∧
       ((close msgs).2 = .nil → ∃ m, some m ∈ msgs ∧ endsMsg m) :=
   ⟨rfl, closeWait_nil msgs⟩
+
+/-! ## every connection carries the TNC's host-interface mode -/
+
+/-- **conn_mode_propagated (regenerated fact).** In /repo's current source every place that builds a connection
+value (`tncConn{…}`) — there are at least two: the dialled one in `DialBandwidth` and the ACCEPTED one in
+`Listen` — sets `isTCP` from the TNC's own `isTCP`, and `Write` selects its framing by reading that field.
+Together with `host_frame_roundtrip_data` (both framings) this is what makes "correctly framed over both the
+TCP and the serial host interface" hold for accepted connections too, not only for dialled ones. -/
+theorem conn_mode_propagated :
+    2 ≤ Gen.ardopConnLiterals.length
+    ∧ ["TNC.DialBandwidth", "TNC.Listen"].all (fun f => Gen.ardopConnLiterals.any (·.1 == f)) = true
+    ∧ Gen.ardopConnLiterals.all (fun l => l.2.contains ("isTCP", "tnc.isTCP")) = true
+    ∧ Gen.ardopWriteModeReads ≠ [] ∧ Gen.ardopWriteModeReads.all (· == "conn.isTCP") = true := by
+  decide
 
 end Wl2k.Props.C14
